@@ -27,6 +27,15 @@ PlayEv(e) ==
           ELSE Report("play", [len |-> e.len, ret |-> e.ret, wantret |-> r.ret, log |-> e.log, want |-> r.ev, frame |-> p.frame, fs |-> p.fs,
                                total |-> total + nS, wanttotal |-> TotalSamples(track, spf), ended |-> r.ended, outok |-> e.out = wantOut])
 
+\* generated files: the register-major contents are RawGen(seed, j) at position j (0-based); sampled positions i
+\* (1-based) of the loader's result must hold the byte of register (i-1) % 14 of frame (i-1) \div 14
+RawGen(seed, j) == ((j % 251) * 7 + ((j \div 251) % 241) * 13 + ((j \div 60491) % 239) * 29 + seed) % 256
+DecodeGen(e) ==
+    LET ok == /\ e.outcome = "ok" /\ e.len = e.frames * 14
+              /\ \A k \in DOMAIN e.samples :
+                    LET i == e.samples[k][1] IN e.samples[k][2] = RawGen(e.seed, ((i - 1) % 14) * e.frames + ((i - 1) \div 14))
+    IN IF ok THEN bad' = bad ELSE Report("decode", [file |-> "generated", frames |-> e.frames, len |-> e.len, outcome |-> e.outcome])
+
 Step(e) ==
     CASE e.ev = "track" ->
             /\ track' = e.frames /\ spf' = e.rate \div e.pf /\ stereo' = e.stereo
@@ -36,6 +45,7 @@ Step(e) ==
             /\ IF e.equal /\ e.samples_per_channel = e.frames * (e.rate \div 50) THEN bad' = bad
                ELSE Report("chunkings", [equal |-> e.equal, samples |-> e.samples_per_channel, want |-> e.frames * (e.rate \div 50)])
             /\ UNCHANGED <<track, spf, stereo, p, sampleNo, total>>
+      [] e.ev = "decodegen" -> DecodeGen(e) /\ UNCHANGED <<track, spf, stereo, p, sampleNo, total>>
       [] e.ev = "decode" ->
             /\ IF Len(e.frame_data) = Len(e.raw) /\ Len(e.raw) % 14 = 0
                   /\ \A i \in 1..Len(e.raw) : e.frame_data[i] = Transposed(e.raw, i) THEN bad' = bad
